@@ -4,6 +4,7 @@
 From Coq Require Import ZArith List Bool Lia.
 Import ListNotations.
 From Mds Require Import Gen.LcsIdx Slice.Subseq Slice.LcsModel.
+From Mds Require Export Slice.LcsLisUtil.
 Local Open Scope Z_scope.
 
 Ltac gen_unfold :=
@@ -12,64 +13,6 @@ Ltac gen_unfold :=
     lcs_diag_idx_n, lcs_diag_idx, lcs_tie_cond, lcs_left_idx_n, lcs_up_idx_n, lcs_left_dst,
     lcs_left_idx, lcs_up_dst, lcs_up_idx, lcs_last_idx, lcs_out_idx, lcs_walk_cond,
     lcs_ncalls_reverse in *.
-
-(* ---- Go slice access at nat positions ---- *)
-Lemma znth_nat : forall {A} (l : list A) k, znth l (Z.of_nat k) = nth_error l k.
-Proof.
-  intros; unfold znth. destruct (Z.ltb_spec (Z.of_nat k) 0); [lia|]. now rewrite Nat2Z.id.
-Qed.
-
-Lemma zupd_nat : forall {A} (l : list A) k v, zupd l (Z.of_nat k) v = upd_nat l k v.
-Proof.
-  intros; unfold zupd. destruct (Z.ltb_spec (Z.of_nat k) 0); [lia|]. now rewrite Nat2Z.id.
-Qed.
-
-Lemma upd_nat_some : forall {A} (l : list A) k v, (k < length l)%nat -> exists l', upd_nat l k v = Some l'.
-Proof.
-  induction l as [|h t IH]; intros k v Hk; cbn in *; [lia|].
-  destruct k; [eauto|]. destruct (IH k v ltac:(lia)) as [t' ->]. eauto.
-Qed.
-
-Lemma upd_nat_spec : forall {A} (l : list A) k v l', upd_nat l k v = Some l' ->
-  length l' = length l /\ nth_error l' k = Some v /\ forall m, m <> k -> nth_error l' m = nth_error l m.
-Proof.
-  induction l as [|h t IH]; intros k v l' H; cbn in H; [discriminate|].
-  destruct k.
-  - inversion H; subst; cbn. repeat split; auto. intros [|m] Hm; [congruence | reflexivity].
-  - destruct (upd_nat t k v) as [t'|] eqn:E; [|discriminate]. inversion H; subst.
-    destruct (IH _ _ _ E) as (Hl & Hk & Ho). cbn. repeat split; auto.
-    intros [|m] Hm; cbn; [reflexivity | apply Ho; congruence].
-Qed.
-
-Lemma nth_error_some_lt : forall {A} (l : list A) k, (k < length l)%nat -> exists a, nth_error l k = Some a.
-Proof.
-  intros A l k H. destruct (nth_error l k) eqn:E; [eauto|]. apply nth_error_None in E; lia.
-Qed.
-
-Lemma firstn_snoc : forall {A} (l : list A) k a, nth_error l k = Some a -> firstn (S k) l = firstn k l ++ [a].
-Proof.
-  induction l as [|h t IH]; intros [|k] a H; cbn in *; try discriminate.
-  - now inversion H.
-  - f_equal. now apply IH.
-Qed.
-
-Lemma SubseqR_removelast : forall {A B} (R : A -> B -> Prop) s l y,
-  SubseqR R s (l ++ [y]) -> SubseqR R (removelast s) l.
-Proof.
-  intros A B R s l y H. destruct (SubseqR_snoc_inv R _ _ _ H) as [H1 | (s' & x & -> & _ & H1)].
-  - clear H. induction H1.
-    + apply sr_nil.
-    + now apply sr_skip.
-    + destruct s as [|x' s']; [apply sr_nil|].
-      change (removelast (x :: x' :: s')) with (x :: removelast (x' :: s')). now apply sr_take.
-  - now rewrite removelast_last.
-Qed.
-
-Lemma length_removelast_le : forall {A} (s : list A), (length s <= S (length (removelast s)))%nat.
-Proof.
-  intros A s. destruct s as [|x s] using rev_ind; [cbn; lia|].
-  rewrite removelast_last, app_length; cbn; lia.
-Qed.
 
 Section LcsProofs.
   Variable T : Type.
